@@ -200,6 +200,11 @@ def _written_rows_sources(ck, fn):
             apps = [x for x in T.subterms(t) if x[0] == "app"]
             foreign = [x for x in apps if not x[1].endswith(allowed_tail)]
             roots = [x for x in apps if x[1] == base_exec or x[1] == second.qualname]
+            from ..norm import is_new_helper as _new
+            if foreign and roots and all(x[1] in p.functions and _new(p.functions[x[1]]) for x in foreign):
+                # rows pass through a helper that did not exist on the pinned tree and is not read through: what it hands back is unknown
+                raise AnalysisError(f"{where(execute, node)}: rows of {label} pass through a helper that is not read through: "
+                                    + ", ".join(short(x[1]) for x in foreign))
             ck.judge(bool(roots) and not foreign, "C01.1", f"execute:{label}:source", where(execute, node),
                      "rows written in this mode derive only from the filtered result of the parallel map",
                      found="foreign producers: " + ", ".join(short(x[1]) for x in foreign) if foreign else
